@@ -16,6 +16,26 @@ PROPS = {
     },
 }
 
+PROPS["C09"] = {
+    "modules": ["SlogModel.Props.C09"],
+    "components": [("parse", 20000, 400000)],
+    "rule": "one case = one parser instance (limits + level mapping) fed 8 lines (all-PRI cases: 200 lines); distinct by the "
+            "byte content of the whole sequence; every case reaches Parse (non-trivial); classes = which of pass / "
+            "pass-overflow / drop occurred",
+    "level_text": "Theorems C09_total (Parse never panics, all inputs), C09_parse_render (every well-formed line of at least "
+                  "the minimal length yields exactly facility pri/8, level mapping[pri%8], the six tokens and the message cut "
+                  "to the limit), C09_pri_out_of_range, C09_counted_once, C09_overflow_counted, proved in Lean 4 on a "
+                  "statement-level model of syslogparser.go; model tied to the code by differential runs through the real "
+                  "parser (fields, flags and all six counters compared after every call) and six regenerated source facts. "
+                  "PARTIAL: the UTF-8 clause (cut of a valid message is a valid prefix) is so far checked by the correspondence "
+                  "oracle only; the Lean theorem for it is not proved yet.",
+    "level_note": "Trusted: Lean kernel + 3 standard axioms; the sampled model-code correspondence; strconv.Atoi and "
+                  "strings.ToValidUTF8 as modelled (differential-checked).",
+    "partial": "UTF-8 boundary clause not yet a theorem (C09_cut_utf8 pending)",
+    "assumptions": ["strconv.Atoi = Parse.atoi (sign, digits, int64 range)",
+                    "strings.ToValidUTF8(s, \"\") = Utf8.toValid (Go's utf8 acceptance table)"],
+}
+
 NOT_APPLICABLE = {k: "check not built yet in this round (planned in DESIGN.md section 6); no claim is made" for k in
                   ["C%02d" % i for i in range(1, 20)]}
 
